@@ -185,6 +185,44 @@ C08_SCENARIO(asynclogging_append)
   if (system(cmd) != 0) {}
 }
 
+// The back-end side of AsyncLogging: every access of currentBuffer_/nextBuffer_/buffers_ in threadFunc sits inside its
+// MutexLockGuard scope.  To give an access moved just OUTSIDE that scope a failing input, the front-end has to touch the same
+// member again before the back-end's next lock acquisition - i.e. a second buffer overflow (>= 4,000,000 bytes) while the
+// back-end is still writing out the first one.  The back-end is held in its write-out by -Wl,--wrap=fwrite_unlocked.
+namespace
+{
+std::atomic<int> g_fwrite_stall_ms(0);
+}
+extern "C" size_t __real_fwrite_unlocked(const void* ptr, size_t size, size_t n, FILE* stream);
+extern "C" size_t __wrap_fwrite_unlocked(const void* ptr, size_t size, size_t n, FILE* stream)
+{
+  int ms = g_fwrite_stall_ms.exchange(0, std::memory_order_relaxed);
+  if (ms > 0) ::usleep(ms * 1000);
+  return __real_fwrite_unlocked(ptr, size, n, stream);
+}
+
+C08_SCENARIO(asynclogging_overflow_during_writeout)
+{
+  char base[256];
+  if (chdir("/tmp") != 0) {}
+  snprintf(base, sizeof base, "c08_async2_%d", getpid());
+  {
+    AsyncLogging log(base, 64 * 1024 * 1024, 3);
+    log.start();
+    std::string line(999, 'o');
+    line += '\n';
+    g_fwrite_stall_ms.store(250, std::memory_order_relaxed);
+    for (int i = 0; i < 4200; ++i) log.append(line.data(), static_cast<int>(line.size()));   // overflow A wakes the back-end
+    sleep_ms(40);                               // it has swapped the buffers, left its lock scope and sits in the write-out
+    for (int i = 0; i < 4200; ++i) log.append(line.data(), static_cast<int>(line.size()));   // overflow B takes nextBuffer_
+    sleep_ms(300);
+    log.stop();
+  }
+  char cmd[300];
+  snprintf(cmd, sizeof cmd, "rm -f /tmp/%s.*", base);
+  if (system(cmd) != 0) {}
+}
+
 namespace
 {
 std::atomic<long> g_logged(0);
